@@ -17,7 +17,9 @@ import inspect
 import numpy as np
 
 DERIVED = {"parent", "parent_source", "parent_block", "referring_objects", "referring_blocks", "referring_groups",
-           "referring_data_arrays", "referring_tags", "referring_multi_tags", "referring_sources"}
+           "referring_data_arrays", "referring_data_frames", "referring_tags", "referring_multi_tags", "referring_sources"}
+# (derived = computed from links stored elsewhere: judged by C13, not part of an entity's own record; any public property whose
+#  name starts with "referring_" is treated the same way, so a list added to the library later does not turn into a false alarm)
 EXCLUDED = {"file", "data"}          # back reference; deprecated DataArray.data (returns self)
 TIMESTAMPS = {"created_at", "updated_at"}
 
@@ -106,7 +108,7 @@ class Snapper:
         rec = {}
         is_ds = isinstance(obj, (self.nix.DataArray, self.nix.DataFrame))
         for name in public_properties(type(obj)):
-            if name == "file" or name in DERIVED or (name == "data" and is_ds):
+            if name == "file" or name in DERIVED or name.startswith("referring_") or (name == "data" and is_ds):
                 continue
             try:
                 rec[name] = self.canon(getattr(obj, name))
